@@ -623,6 +623,14 @@ func c10r5(p *Program, r *Report) {
 	tr := newReadTracer(p)
 	tr.prims = map[string]string{}
 	tr.noAuto = func(string) bool { return true }
+	// the arms may have been moved into functions of their own: they belong to the decision
+	units := []*FuncInfo{fi}
+	for _, h := range p.privateCallees(fi) {
+		if h.Decl.Recv == nil && h.Name != "getReplicationFactorFromOpts" {
+			tr.inline[h.Name] = true
+			units = append(units, h)
+		}
+	}
 	got := map[string]map[string]bool{}
 	otherStrategy := ""
 	for _, st := range tr.run(fi, 4) {
@@ -631,8 +639,13 @@ func c10r5(p *Program, r *Report) {
 		}
 		lits := trueLits(st, "strings.Contains")
 		typ := "nil"
-		if !isNil(info, st.retStmt.Results[0]) {
-			typ = typeNameOf(info.TypeOf(st.retStmt.Results[0]))
+		res, rinfo := st.retStmt.Results[0], info
+		if c, isCall := ast.Unparen(res).(*ast.CallExpr); isCall && tr.inline[calleeName(info, c)] && len(st.retExprs) == 1 {
+			// `return helper(...)`: what the helper returned on this path
+			res, rinfo = st.retExprs[0], p.Func(calleeName(info, c)).Pkg.TypesInfo
+		}
+		if !isNil(rinfo, res) {
+			typ = typeNameOf(rinfo.TypeOf(res))
 		}
 		cls := ""
 		for _, l := range lits {
@@ -669,27 +682,29 @@ func c10r5(p *Program, r *Report) {
 	}
 	// a replication-factor parse error never yields a strategy with a made-up factor: error branches return nil / continue
 	n := 0
-	ast.Inspect(fi.Decl.Body, func(x ast.Node) bool {
-		ifs, ok := x.(*ast.IfStmt)
-		if !ok {
+	for _, u := range units {
+		ast.Inspect(u.Decl.Body, func(x ast.Node) bool {
+			ifs, ok := x.(*ast.IfStmt)
+			if !ok {
+				return true
+			}
+			call, trueErr := p.errCheckOf(info, ifs.Cond)
+			if call == nil || !isCallTo(info, call, "getReplicationFactorFromOpts") || !trueErr {
+				return true
+			}
+			n++
+			last := ifs.Body.List[len(ifs.Body.List)-1]
+			okStop := false
+			switch s := last.(type) {
+			case *ast.ReturnStmt:
+				okStop = len(s.Results) == 1 && isNil(info, s.Results[0])
+			case *ast.BranchStmt:
+				okStop = s.Tok == token.CONTINUE
+			}
+			r.Check(okStop, ifs, "getStrategy does not use an unparsable replication factor", "error branch returns no strategy / skips the datacenter", "a replication factor that failed to parse is still used")
 			return true
-		}
-		call, trueErr := p.errCheckOf(info, ifs.Cond)
-		if call == nil || !isCallTo(info, call, "getReplicationFactorFromOpts") || !trueErr {
-			return true
-		}
-		n++
-		last := ifs.Body.List[len(ifs.Body.List)-1]
-		okStop := false
-		switch s := last.(type) {
-		case *ast.ReturnStmt:
-			okStop = len(s.Results) == 1 && isNil(info, s.Results[0])
-		case *ast.BranchStmt:
-			okStop = s.Tok == token.CONTINUE
-		}
-		r.Check(okStop, ifs, "getStrategy does not use an unparsable replication factor", "error branch returns no strategy / skips the datacenter", "a replication factor that failed to parse is still used")
-		return true
-	})
+		})
+	}
 	if n == 0 {
 		r.Unresolved("getStrategy never checks getReplicationFactorFromOpts' error")
 	}
@@ -1881,30 +1896,64 @@ func c10r9(p *Program, r *Report) {
 		if fi == nil {
 			continue
 		}
-		g := p.GraphOf(fi)
-		info := g.Info
-		facts := g.GuardFacts()
-		var search *ast.CallExpr
+		info := fi.Pkg.TypesInfo
+		// the binary search: in the function itself, or in a helper of the module it hands the ring's size to
+		sf := fi
+		var search, hcall *ast.CallExpr
 		for _, c := range callsIn(fi.Decl.Body) {
 			if calleeName(info, c) == "sort.Search" && len(c.Args) == 2 && search == nil {
 				search = c
 			}
 		}
 		if search == nil {
+			for _, c := range callsIn(fi.Decl.Body) {
+				fn := calleeOf(info, c)
+				if fn == nil || search != nil {
+					continue
+				}
+				h := p.FuncOf(fn)
+				if h == nil || h.Pkg != p.Root || h.Decl.Body == nil || h == fi {
+					continue
+				}
+				for _, hc := range callsIn(h.Decl.Body) {
+					if calleeName(h.Pkg.TypesInfo, hc) == "sort.Search" && len(hc.Args) == 2 && search == nil {
+						search, sf, hcall = hc, h, c
+					}
+				}
+			}
+		}
+		if search == nil {
 			r.Unresolved("%s: no sort.Search call", name)
 			continue
 		}
+		sinfo := sf.Pkg.TypesInfo
+		sfacts := p.GraphOf(sf).GuardFacts()
 		pv := resultVarOf(p, search, 0)
-		pid := identNamed(fi, pv)
+		pid := identNamed(sf, pv)
 		if pv == "" || pid == nil {
 			r.Unresolved("%s: the search result is not bound to a variable", name)
 			continue
 		}
-		pobj := info.Uses[pid]
-		// the slice that is indexed with the result
+		pobj := sinfo.Uses[pid]
+		// what indexes the ring in fi: the result variable, or the helper call (or a variable bound to it)
+		isResult := func(e ast.Expr) bool {
+			e = ast.Unparen(e)
+			if hcall == nil {
+				return isIdentOf(info, e, pobj)
+			}
+			if e == ast.Expr(hcall) {
+				return true
+			}
+			if hv := resultVarOf(p, hcall, 0); hv != "" {
+				if id, isId := e.(*ast.Ident); isId && id.Name == hv {
+					return true
+				}
+			}
+			return false
+		}
 		var ring ast.Expr
 		inspectNoLit(fi.Decl.Body, func(x ast.Node) bool {
-			if ix, ok := x.(*ast.IndexExpr); ok && isIdentOf(info, ix.Index, pobj) && ring == nil {
+			if ix, ok := x.(*ast.IndexExpr); ok && isResult(ix.Index) && ring == nil {
 				ring = ix.X
 			}
 			return true
@@ -1914,7 +1963,7 @@ func c10r9(p *Program, r *Report) {
 			continue
 		}
 		ringS := exprStr(ring)
-		// names for len(ring)
+		// names for len(ring) in fi
 		sizes := map[string]bool{"len(" + ringS + ")": true}
 		ast.Inspect(fi.Decl.Body, func(m ast.Node) bool {
 			if as, ok := m.(*ast.AssignStmt); ok && len(as.Lhs) == 1 && len(as.Rhs) == 1 && exprStr(as.Rhs[0]) == "len("+ringS+")" {
@@ -1924,50 +1973,92 @@ func c10r9(p *Program, r *Report) {
 			}
 			return true
 		})
-		r.Check(sizes[exprStr(ast.Unparen(search.Args[0]))], search, name+" searches the whole ring", "sort.Search(len("+ringS+"), ...)",
-			"the binary search covers "+exprStr(search.Args[0])+" entries instead of all len("+ringS+"): a token above the entries searched is attributed to the last entry searched instead of wrapping around to the first range (or the last range is never found)")
+		// the names the size has where the search is
+		ssizes := sizes
+		if hcall == nil {
+			r.Check(sizes[exprStr(ast.Unparen(search.Args[0]))], search, name+" searches the whole ring", "sort.Search(len("+ringS+"), ...)",
+				"the binary search covers "+exprStr(search.Args[0])+" entries instead of all len("+ringS+"): a token above the entries searched is attributed to the last entry searched instead of wrapping around to the first range (or the last range is never found)")
+		} else {
+			k := -1
+			if szid, isId := ast.Unparen(search.Args[0]).(*ast.Ident); isId {
+				if idx, stable := p.stableParams(sf)[sinfo.Uses[szid]]; stable {
+					k = idx
+				}
+			}
+			okSize := k >= 0 && k < len(hcall.Args) && sizes[exprStr(ast.Unparen(hcall.Args[k]))]
+			got := exprStr(search.Args[0])
+			if k >= 0 && k < len(hcall.Args) {
+				got = exprStr(hcall.Args[k])
+			}
+			r.Check(okSize, hcall, name+" searches the whole ring", sf.Name+" searches the "+got+" entries it is given",
+				"the binary search covers "+got+" entries instead of all len("+ringS+"): a token above the entries searched is attributed to the last entry searched instead of wrapping around to the first range (or the last range is never found)")
+			ssizes = map[string]bool{exprStr(ast.Unparen(search.Args[0])): true}
+		}
+		pastAt := func(n ast.Node) bool {
+			f, okF := sfacts.Before(n)
+			if !okF {
+				return false
+			}
+			for sz := range ssizes {
+				if v, known := f.KnownStr(pv + " < " + sz); known && !v {
+					return true
+				}
+				if v, known := f.KnownStr(pv + " == " + sz); known && v {
+					return true
+				}
+				if v, known := f.KnownStr(sz + " == " + pv); known && v {
+					return true
+				}
+			}
+			return false
+		}
 		// other assignments of the result variable
-		ast.Inspect(fi.Decl.Body, func(x ast.Node) bool {
+		ast.Inspect(sf.Decl.Body, func(x ast.Node) bool {
 			as, ok := x.(*ast.AssignStmt)
 			if !ok {
 				return true
 			}
 			for i, l := range as.Lhs {
-				if !isIdentOf(info, l, pobj) || (len(as.Rhs) == 1 && ast.Unparen(as.Rhs[0]) == ast.Expr(search)) {
+				if !isIdentOf(sinfo, l, pobj) || (len(as.Rhs) == 1 && ast.Unparen(as.Rhs[0]) == ast.Expr(search)) {
 					continue
 				}
 				okZero := false
 				if as.Tok == token.ASSIGN && i < len(as.Rhs) {
-					if k, isK := constInt(info, as.Rhs[i]); isK && k == 0 {
+					if k, isK := constInt(sinfo, as.Rhs[i]); isK && k == 0 {
 						okZero = true
 					}
 				}
-				past := false
-				if f, okF := facts.Before(as); okF {
-					for sz := range sizes {
-						if v, known := f.KnownStr(pv + " < " + sz); known && !v {
-							past = true
-						}
-						if v, known := f.KnownStr(pv + " == " + sz); known && v {
-							past = true
-						}
-						if v, known := f.KnownStr(sz + " == " + pv); known && v {
-							past = true
-						}
-					}
-				}
+				past := pastAt(as)
 				r.Check(okZero && past, as, name+" wraps a result past the end to the first entry", pv+" = 0 where "+pv+" >= len("+ringS+")",
 					"the search result is replaced by "+exprStr(as.Rhs[minInt(i, len(as.Rhs)-1)])+ifs(past, "", " at a point where it is not known to be past the end")+": a token above the highest ring token must be owned by entry 0 (the range that wraps around), and no other result may be changed")
 			}
 			return true
 		})
+		if hcall != nil {
+			// what the helper hands back: the search result, or 0 where the result is past the end
+			inspectNoLit(sf.Decl.Body, func(x ast.Node) bool {
+				rs, ok := x.(*ast.ReturnStmt)
+				if !ok || len(rs.Results) != 1 {
+					return true
+				}
+				e := ast.Unparen(rs.Results[0])
+				if isIdentOf(sinfo, e, pobj) {
+					return true
+				}
+				k, isK := constInt(sinfo, e)
+				past := pastAt(rs)
+				r.Check(isK && k == 0 && past, rs, name+" wraps a result past the end to the first entry", sf.Name+" returns 0 where "+pv+" >= its size",
+					"the search result is replaced by "+exprStr(e)+ifs(past, "", " at a point where it is not known to be past the end")+": a token above the highest ring token must be owned by entry 0 (the range that wraps around), and no other result may be changed")
+				return true
+			})
+		}
 		// index expressions on the ring
 		inspectNoLit(fi.Decl.Body, func(x ast.Node) bool {
 			ix, ok := x.(*ast.IndexExpr)
 			if !ok || exprStr(ix.X) != ringS {
 				return true
 			}
-			okIdx := isIdentOf(info, ix.Index, pobj)
+			okIdx := isResult(ix.Index)
 			if k, isK := constInt(info, ix.Index); isK && k == 0 {
 				okIdx = true
 			}
@@ -1985,10 +2076,11 @@ func minInt(a, b int) int {
 }
 
 // c10r10: three structural conditions of "the replica map describes the current ring":
-//  (a) newTokenRing puts the tokens of every host it is given on the ring - a node that is down still owns its ranges
-//      (Cassandra's placement does not depend on liveness), so no host is skipped by a condition;
-//  (b) wherever a function rebuilds the ring of a clusterMeta and recomputes its replica maps, the rebuild comes first;
-//  (c) updateReplicas carries the maps of the other keyspaces over under their own names.
+//
+//	(a) newTokenRing puts the tokens of every host it is given on the ring - a node that is down still owns its ranges
+//	    (Cassandra's placement does not depend on liveness), so no host is skipped by a condition;
+//	(b) wherever a function rebuilds the ring of a clusterMeta and recomputes its replica maps, the rebuild comes first;
+//	(c) updateReplicas carries the maps of the other keyspaces over under their own names.
 func c10r10(p *Program, r *Report) {
 	if fi := r.NeedFunc("newTokenRing"); fi != nil {
 		info := fi.Pkg.TypesInfo
